@@ -203,6 +203,25 @@ fn case(cfg: &Config, idx: u64, r: &mut Rng, st: &mut Stats) {
 /// formulas of the problems anthem emits for generated tasks (rendered by Problem's Display)
 fn task_case(_cfg: &Config, _idx: u64, r: &mut Rng, st: &mut Stats) {
     use crate::kit::tasks::*;
+    if r.chance(1, 2) {
+        // external tasks: completed definitions, placeholders as sorted function constants
+        let eo = ExtOpts { hostile_identifiers: r.chance(1, 2), ..Default::default() };
+        let (t, _) = gen_external(r, &eo);
+        let Ok(parsed) = parse_ext(&t) else { return };
+        let flags = Flags::random(r);
+        if let Built::Ok { problems, .. } = build_external(&parsed, true, flags) {
+            st.inc("task_problems_sampled");
+            for p in problems.iter().take(2) {
+                for (_, _, f) in p.formulas.iter().rev().take(3) {
+                    if f.free_variables().is_empty() {
+                        st.inc("task_formulas");
+                        check_formula(f, r, 3, st);
+                    }
+                }
+            }
+        }
+        return;
+    }
     let so = StrongOpts { hostile_names: r.chance(1, 2), ..Default::default() };
     let (l, rt) = gen_strong_with(r, so);
     let (Ok(lp), Ok(rp)) = (parse_program(&l), parse_program(&rt)) else { return };
